@@ -42,6 +42,9 @@ enum Plan {
     /// complete GET to the handler that drops its RequestContext before it waits; disconnect
     /// while it waits.  The scenario's server is then closed with the gates still shut.
     WaitingDropCtx(How),
+    /// complete GET carrying `Upgrade: h2c` (as `curl --http2` sends on a plain connection; the
+    /// server ignores the offer); disconnect while the handler waits
+    WaitingUpgradeHdr(How),
     /// handler released, large response being written, client never reads, disconnect
     Writing(How),
     /// stays connected; its handler runs across the other clients' disconnects
@@ -67,6 +70,7 @@ impl Plan {
             Plan::Waiting(h) => format!("wait-{}", h.name()),
             Plan::WaitingBody(h) => format!("waitbody-{}", h.name()),
             Plan::WaitingDropCtx(h) => format!("waitdropctx-{}", h.name()),
+            Plan::WaitingUpgradeHdr(h) => format!("waitupgrade-{}", h.name()),
             Plan::Writing(h) => format!("write-{}", h.name()),
             Plan::Stay => "stay".into(),
             Plan::StayReuse => "stayreuse".into(),
@@ -182,6 +186,17 @@ fn run_conn(sh: &Shared, c: u32, plan: Plan) -> Option<std::net::TcpStream> {
         Plan::Waiting(how) => {
             sh.req(r1, c, "wait");
             let _ = send_logged(ctx, &mut s, &get(&format!("/w/{}", r1)), Ev::ReqSent(c, r1));
+            disconnect_while_waiting(sh, s, c, r1, how)
+        }
+        Plan::WaitingUpgradeHdr(how) => {
+            sh.req(r1, c, "wait");
+            let req = dsharness::server::build_request(
+                "GET",
+                &format!("/w/{}", r1),
+                &[("connection", "Upgrade, HTTP2-Settings"), ("upgrade", "h2c"), ("http2-settings", "AAMAAABkAAQCAAAAAAIAAAAA")],
+                b"",
+            );
+            let _ = send_logged(ctx, &mut s, &req, Ev::ReqSent(c, r1));
             disconnect_while_waiting(sh, s, c, r1, how)
         }
         Plan::WaitingDropCtx(how) => {
@@ -941,6 +956,7 @@ fn main() {
                 Plan::PartialHeaders(h),
                 Plan::Immediately(h),
                 Plan::Waiting(h),
+                Plan::WaitingUpgradeHdr(h),
                 Plan::WaitingDropCtx(h),
                 Plan::WaitingBody(h),
                 Plan::Writing(h),
